@@ -49,6 +49,7 @@ M = [
  ('every disconnect callback runs even when one of them cancels itself', 'C09', "three disconnect callbacks registered, the first cancels its own registration while it runs, the connection is lost: the second callback never runs (connection-level and proxy-level lists alike)"),
  ('every caller waiting on a shared Deferred gets its result', 'C10', "an exported method returns ONE Deferred to two concurrent calls and the Deferred fires with a value: the second caller gets org.txdbus.PythonException.MarshallingError instead of the value"),
  ('known header fields hold values of the wrong kind is rejected', 'C05', "a peer of the built-in bus sends a well-framed call for another client whose MEMBER header field is an array of strings (or INTERFACE a boolean ...): the bus forwards it, the addressed client's dataReceived raises TypeError (unhashable type: 'list') and that client - not the sender - loses its connection"),
+ ('SIGNATURE header field longer than 255 characters', 'C05', "a message whose SIGNATURE header field arrives as a STRING of 804 (3204) characters - 'a(' + '()' * 400 + 'y)' - in front of a 400-element array: every element costs one step per empty struct, 700000 interpreter calls for 4 KB and 23 million (19 s) for 16 KB: decoding work quadratic in the length of the message"),
  ('RequestName queues a requester', 'C13', 'request without the replace flag refused instead of queued; a waiting client requesting again queued twice'),
  ('waiting for a name leaves the queue', 'C13', 'ReleaseName by a queued client answered NOT_OWNER and left it queued; a queued client that disconnected later became a dead owner'),
 ]
